@@ -75,6 +75,36 @@ func (e *feeEnv) exec(op string) string {
 				rounded = "1"
 			}
 			return "ok " + c.Amount.String() + " " + rounded
+		case "dist":
+			// dist den:amt:bips:rcpt|… — the Increase calls of one transaction, in order
+			d := msgfees.MsgFeesDistribution{RecipientDistributions: map[string]sdk.Coins{}}
+			if ws[1] != "-" {
+				for _, c := range strings.Split(ws[1], "|") {
+					f := strings.Split(c, ":")
+					var bips uint32
+					fmt.Sscan(f[2], &bips)
+					rcpt := f[3]
+					if rcpt == "-" {
+						rcpt = ""
+					}
+					if err := d.Increase(sdk.Coin{Denom: f[0], Amount: mustInt(f[1])}, bips, rcpt); err != nil {
+						return "err:invalid"
+					}
+				}
+			}
+			per := func(cs sdk.Coins) string {
+				return cs.AmountOf("nhash").String() + "/" + cs.AmountOf("usd").String() + "/" + cs.AmountOf("btc").String()
+			}
+			res := "ok t=" + per(d.TotalAdditionalFees) + " m=" + per(d.AdditionalModuleFees)
+			for _, r := range []string{"r1", "r2", "r3"} {
+				res += " " + r + "=" + per(d.RecipientDistributions[r])
+			}
+			for r := range d.RecipientDistributions {
+				if r != "r1" && r != "r2" && r != "r3" {
+					res += " unexpected-recipient:" + r
+				}
+			}
+			return res
 		case "bips":
 			var bips uint32
 			fmt.Sscan(ws[2], &bips)
@@ -103,7 +133,38 @@ func genFeeOp(r *RNG, out *Out) string {
 		return x
 	}
 	switch k := r.Intn(100); {
-	case k < 10:
+	case k < 8:
+		// a transaction's worth of MsgFeesDistribution.Increase calls
+		n := 1 + r.Intn(8)
+		var calls []string
+		for i := 0; i < n; i++ {
+			amt := r.BigBoundary()
+			if r.Chance(40) {
+				amt = nearMultiple(big.NewInt(10000))
+			}
+			if amt.BitLen() > 250 {
+				amt.Rsh(amt, uint(amt.BitLen()-250)) // keep the sums inside 256 bits
+			}
+			if r.Chance(6) {
+				amt.SetInt64(0)
+			} else if r.Chance(3) {
+				amt.Neg(amt)
+			}
+			bips := r.Intn(10001)
+			if r.Chance(25) {
+				bips = []int{0, 1, 9999, 10000, 2500, 5000}[r.Intn(6)]
+			}
+			if r.Chance(1) {
+				bips = 10001 + r.Intn(60000)
+			}
+			rcpt := []string{"-", "r1", "r2", "r3"}[r.Intn(4)]
+			den := []string{"nhash", "nhash", "usd", "btc"}[r.Intn(4)]
+			calls = append(calls, fmt.Sprintf("%s:%s:%d:%s", den, amt, bips, rcpt))
+		}
+		out.Count("op:dist")
+		out.Count(fmt.Sprintf("dist:calls:%d", n))
+		return "dist " + strings.Join(calls, "|")
+	case k < 15:
 		a, b := r.BigBoundary(), r.BigBoundary()
 		if b.Sign() == 0 {
 			b.SetInt64(1)
